@@ -25,7 +25,8 @@ rundemo() {
   fi
 }
 rundemo; base=$?
-git apply --unsafe-paths "$d/patch.diff" 2>/dev/null || patch -p1 -s < "$d/patch.diff" || { echo "NOT-CONFIRMED patch does not apply"; exit 1; }
+pf="$d/patch.diff"; [ -f "$d/patch.rebased.diff" ] && pf="$d/patch.rebased.diff"
+git apply --unsafe-paths "$pf" 2>/dev/null || patch -p1 -s < "$pf" || { echo "NOT-CONFIRMED patch does not apply"; exit 1; }
 $GO test -vet=off -count=1 ./... > "$scratch/suite.log" 2>&1; suite=$?
 rundemo; withp=$?
 echo "demo-without-patch rc=$base  suite-with-patch rc=$suite  demo-with-patch rc=$withp"
